@@ -30,6 +30,10 @@ Inductive case :=
           (* exemplars: expected trace_id / span_id (hex), per SDK point its exemplars (filtered attributes, value),
              per exposed series its exemplars (labels, value); both lists aligned with [pts] / the series of [fam] *)
           (tid sid : bytes) (pexs : list (list sdk_ex)) (oexs : list (list out_ex))
+          (cb_errors : N)   (* observable callbacks that fail during the scrape (they observe nothing): one handled error each *)
+(** Several meters with the same name / version that differ only in their attributes: per meter its attributes
+    + name + version (set order), and the label sets of all otel_scope_info series of the scrape. *)
+| CScopeInfos (utf8 : bool) (inputs outs : list (list Model.attr))
 | CAttrs (utf8 : bool) (input out : list Model.attr).   (* target_info labels of a resource *)
 
 Definition flag (b : bool) (code : N) : list N := if b then [] else [code].
@@ -115,7 +119,7 @@ Definition model_ex_errors (c : config) (kind : N) (pts : list point) (pexs : li
 Definition model_matches (c : config) (name unit : bytes) (kind : N) (sn sv : bytes)
     (res scope_attrs : list Model.attr) (pts : list point) (pexs : list (list sdk_ex))
     (gather_err : bool) (nerr : N) (target scope_info : bool)
-    (fam : option (bytes * N * list oseries)) : bool :=
+    (fam : option (bytes * N * list oseries)) (cb_errors : N) : bool :=
   let target_ok := info_labels_ok (utf8 c) res in
   let scope_ok := without_scope_info c || info_labels_ok (utf8 c) scope_attrs in
   let terr := if has_target_info c && negb target_ok then 1 else 0 in
@@ -123,7 +127,7 @@ Definition model_matches (c : config) (name unit : bytes) (kind : N) (sn sv : by
   if scope_ok then
     match get_name c name unit (is_counter (kind_of kind)), collect (map (model_series c sn sv) pts) with
     | Name n, Some (ms, dropped) =>
-        (nerr =? dropped + terr + model_ex_errors c kind pts pexs) && Bool.eqb scope_info (has_scope_info c) &&
+        (nerr =? dropped + terr + model_ex_errors c kind pts pexs + cb_errors) && Bool.eqb scope_info (has_scope_info c) &&
         match fam with
         | None => match ms with [] => true | _ => false end
         | Some (fname, ftype, os) =>
@@ -133,7 +137,7 @@ Definition model_matches (c : config) (name unit : bytes) (kind : N) (sn sv : by
     | _, _ => false
     end
   else (* the scope info metric cannot be built: the scope is skipped, one error is reported *)
-    (nerr =? 1 + terr) && negb scope_info && match fam with None => true | Some _ => false end.
+    (nerr =? 1 + terr + cb_errors) && negb scope_info && match fam with None => true | Some _ => false end.
 
 (** ** spec side (no model function below this line) *)
 Definition value_ok (v : value) (o : ovalue) : bool :=
@@ -168,7 +172,7 @@ Definition known_attrs (utf8 : bool) (l : list Model.attr) : bool := existsb (fu
 Definition check_case (c : case) : list N :=
   match c with
   | CScrape utf8 no_units no_total ns no_scope no_target name unit kind sn sv res scope_attrs pts gerr nerr target scope_info fam
-            tid sid pexs oexs =>
+            tid sid pexs oexs cb_errors =>
       let cfg := {| Model.utf8 := utf8; without_units := no_units; without_counter_suffixes := no_total;
                     ns_opt := ns; without_scope_info := no_scope; without_target_info := no_target |} in
       let inp := {| ni_utf8 := utf8; ni_no_units := no_units; ni_no_total := no_total; ni_ns := ns;
@@ -190,9 +194,9 @@ Definition check_case (c : case) : list N :=
                                          exemplars_ok tid sid (snd pp) (snd ss)) oss in
       let xerr := N.of_nat (length (filter (fun pp => ex_eligible kind (snd (fst pp)) && covered (fst pp) &&
                                                       existsb ex_unrepresentable (snd pp)) (combine pts pexs))) in
-      flag (model_matches cfg name unit kind sn sv res scope_attrs pts pexs gerr nerr target scope_info fam) V_MISMATCH ++
+      flag (model_matches cfg name unit kind sn sv res scope_attrs pts pexs gerr nerr target scope_info fam cb_errors) V_MISMATCH ++
       flag (negb gerr && (Bool.eqb target (negb no_target) || res_known) &&
-            if scope_known then (nerr =? 1 + terr)
+            if scope_known then (nerr =? 1 + terr + cb_errors)
             else
               Bool.eqb scope_info (negb no_scope) &&
               match fam with
@@ -202,11 +206,17 @@ Definition check_case (c : case) : list N :=
               forallb covered good &&
               forallb (fun s => existsb (fun p => series_ok utf8 no_scope sn sv p s) pts) os &&
               (length os <=? length pts)%nat &&
-              (N.of_nat (length os) + nerr =? N.of_nat (length pts) + terr + xerr) &&
+              (N.of_nat (length os) + nerr =? N.of_nat (length pts) + terr + xerr + cb_errors) &&
               Nat.eqb (length pexs) (length pts) && Nat.eqb (length oexs) (length os) &&
               forallb ex_ok (combine pts pexs)) V_SPECFAIL ++
       flag (negb res_known && negb scope_known && (scope_known || forallb covered bad)) (V_KNOWN 2) ++
       flag (scope_known || forallb covered bad3) (V_KNOWN 3)
+  | CScopeInfos utf8 inputs outs =>
+      flag (Nat.eqb (length inputs) (length outs) &&
+            forallb (fun i => existsb (attrs_eqb (get_attrs utf8 i)) outs) inputs) V_MISMATCH ++
+      flag (Nat.eqb (length inputs) (length outs) &&
+            forallb (fun i => existsb (labels_ok utf8 i) outs) inputs &&
+            forallb (fun o => existsb (fun i => labels_ok utf8 i o) inputs) outs) V_SPECFAIL
   | CAttrs utf8 input out =>
       flag (attrs_eqb (get_attrs utf8 input) out) V_MISMATCH ++
       flag (labels_ok utf8 input out) V_SPECFAIL
